@@ -17,8 +17,7 @@
            machine (pending-CR treatment as in Csvq.Model.Csv), then
            `loadViewFromFixedLengthTextFile` (header line, c1…cn, `__@i__` for empty names).
            The automatic detection of positions (`Delimiter.Delimit`, a heuristic over the blank
-           columns of the whole file) is NOT modelled; it is covered by the write-then-read law of
-           the harness only.  `SingleLine` is not modelled.
+           columns of the whole file) is modelled in Csvq.Model.FixedAuto.  `SingleLine` is not modelled.
 -/
 import Csvq.Model.Csv
 namespace Csvq.Fixed
